@@ -4,6 +4,7 @@ import BV.Drv.C16
 import BV.Drv.C15
 import BV.Drv.Ash
 import BV.Drv.C05
+import BV.Drv.C07
 
 def dispatch (line : String) : String :=
   match (line.trimAscii.toString.splitOn " ").filter (· ≠ "") with
@@ -15,6 +16,7 @@ def dispatch (line : String) : String :=
   | "c04" :: rest => BV.Drv.Ash.c04 rest
   | "c02" :: rest => BV.Drv.Ash.c02 rest
   | "c05" :: rest => BV.Drv.C05.handle rest
+  | "c07" :: rest => BV.Drv.C07.handle rest
   | _ => "bad-op"
 
 partial def loop (h : IO.FS.Stream) (out : IO.FS.Stream) : IO Unit := do
